@@ -6,10 +6,13 @@ PROPS = {
         "functions_encoded": [
             "ff::prime_field::{Fp31,Fp32BitPrime,Fp61BitPrime}::{add,sub,mul,neg,add_assign,sub_assign,mul_assign,eq,ct_eq,"
             "try_from,truncate_from,from_random_u128,serialize,deserialize,as_u128}",
-            "ff::prime_field::Fp61BitPrime::{modulo_prime_u128,const_truncate,from_bit}",
+            "ff::prime_field::Fp61BitPrime::{modulo_prime_u128,const_truncate,from_bit}", "PrimeField::invert (Fp31)",
+            "ff::galois_field::{Gf2,Gf3Bit,Gf8Bit,Gf9Bit,Gf20Bit,Gf32Bit,Gf40Bit}::{add,sub,neg,mul,as_u128,cmp,index,truncate_from,try_from}, clmul",
+            "ff::boolean::Boolean::*", "ff::boolean_array::BA*::{add,sub,mul,neg,not,mul<Boolean>,get,set,expand,truncate_from,as_u128,try_from}",
+            "ff::accumulator::Accumulator::{new,from,multiply_accumulate,take} (scalar and array)",
         ],
-        "bounds": "full storage width of every operand (8/32/61-bit elements, u128 for truncate_from); no loops",
-        "outside_claim": "Fp25519/RP25519 (curve25519-dalek arithmetic)",
+        "bounds": "full storage width of every operand (8/32/61-bit elements incl. the 61x61-bit product; u128 for Fp61 truncate_from, u64/u32 for Fp32/Fp31); BA/Gf widths as listed per harness; accumulator by induction over an arbitrary (value, count) state",
+        "outside_claim": "Fp25519/RP25519 (curve25519-dalek arithmetic); invert for the 32/61-bit primes; batch_invert; Lagrange tables; share / StdArray arithmetic; Mul of Gf20/32/40Bit against the reference (thorough tier only)",
         "assumptions": [
             "elements are built from raw storage words by transmute under the representation invariant v < PRIME",
             "logging (tracing) and alloc::fmt::format are stubbed out",
